@@ -42,6 +42,36 @@ type c19case struct {
 	Base, Target string
 	BlockSize    uint64
 	MaxData      uint64
+	// Reader selects how the target is presented to Deltify: "bytes" (DeltifyBytes over a
+	// dual-mode bytes.Reader), "plain" (an io.Reader WITHOUT io.ByteReader, like the *os.File
+	// that rsync.Transmit passes: Deltify wraps it in its own buffered reader), "dribble"
+	// (plain reader that returns one byte per Read call).
+	Reader string
+}
+
+// plainReader hides every method of the underlying reader except Read.
+type plainReader struct {
+	r       *bytes.Reader
+	dribble bool
+}
+
+func (p *plainReader) Read(b []byte) (int, error) {
+	if p.dribble && len(b) > 1 {
+		b = b[:1]
+	}
+	return p.r.Read(b)
+}
+
+func deltify(e *rsync.Engine, c c19case, sig *rsync.Signature) ([]*rsync.Operation, error) {
+	if c.Reader == "" || c.Reader == "bytes" {
+		return e.DeltifyBytes([]byte(c.Target), sig, c.MaxData), nil
+	}
+	var delta []*rsync.Operation
+	err := e.Deltify(&plainReader{bytes.NewReader([]byte(c.Target)), c.Reader == "dribble"}, sig, c.MaxData, func(o *rsync.Operation) error {
+		delta = append(delta, proto.Clone(o).(*rsync.Operation))
+		return nil
+	})
+	return delta, err
 }
 
 // checkRoundTrip runs one C19 case against the real engine; returns "" if ok.
@@ -51,7 +81,10 @@ func checkRoundTrip(e *rsync.Engine, c c19case) (what string, ndata, nblock int)
 	if err := sig.EnsureValid(); err != nil {
 		return "signature invalid: " + err.Error(), 0, 0
 	}
-	delta := e.DeltifyBytes(target, sig, c.MaxData)
+	delta, derr := deltify(e, c, sig)
+	if derr != nil {
+		return "Deltify failed on an in-memory target: " + derr.Error(), 0, 0
+	}
 	for i, o := range delta {
 		if err := o.EnsureValid(); err != nil {
 			return fmt.Sprintf("op %d invalid: %v", i, err), 0, 0
@@ -100,7 +133,7 @@ func TestC19(t *testing.T) {
 		maxLen = 8
 	}
 	ws := words(maxLen)
-	r.Rule(fmt.Sprintf("every base,target in {a,b}^<=%d x block size 1..%d x max literal size 1..3 (plus one large limit); non-trivial = delta contains at least one block op and one data op, distinct by (base,target,bs,max)", maxLen, maxLen))
+	r.Rule(fmt.Sprintf("every base,target in {a,b}^<=%d x block size 1..%d x max literal size 1..3 (plus one large limit) x target presented as {dual-mode bytes.Reader via DeltifyBytes, plain io.Reader without ReadByte (what Transmit passes), plain reader returning 1 byte per Read}; non-trivial = delta contains at least one block op and one data op, distinct by (base,target,bs,max)", maxLen, maxLen))
 	r.Assume("alphabet {a,b}: data outside the two-letter alphabet and lengths beyond the bound are not covered",
 		"engine reused across cases within a worker (as mutagen reuses it across files)")
 	maxes := []uint64{1, 2, 3, 1 << 16}
@@ -112,34 +145,36 @@ func TestC19(t *testing.T) {
 		for _, target := range ws {
 			for bs := uint64(1); bs <= uint64(maxLen); bs++ {
 				for _, m := range maxes {
-					c := c19case{string(base), string(target), bs, m}
-					what, nd, nb := checkRoundTrip(e, c)
-					if what != "" {
-						key := vr.J(c)
-						r.Violate(key, what, c, func() bool { w, _, _ := checkRoundTrip(rsync.NewEngine(), c); return w != "" })
-					}
-					nt := nd > 0 && nb > 0
-					if nt {
-						l.Case(fmt.Sprintf("%s|%s|%d|%d", base, target, bs, m), true)
-					} else {
-						l.Case("", false)
-					}
-					switch {
-					case nd > 0 && nb > 0:
-						l.Outcome("mixed")
-					case nd > 0:
-						l.Outcome("data-only")
-					case nb > 0:
-						l.Outcome("block-only")
-					default:
-						l.Outcome("empty")
+					for _, rd := range []string{"bytes", "plain", "dribble"} {
+						c := c19case{string(base), string(target), bs, m, rd}
+						what, nd, nb := checkRoundTrip(e, c)
+						if what != "" {
+							key := vr.J(c)
+							r.Violate(key, what, c, func() bool { w, _, _ := checkRoundTrip(rsync.NewEngine(), c); return w != "" })
+						}
+						nt := nd > 0 && nb > 0
+						if nt {
+							l.Case(fmt.Sprintf("%s|%s|%d|%d|%s", base, target, bs, m, rd), true)
+						} else {
+							l.Case("", false)
+						}
+						switch {
+						case nd > 0 && nb > 0:
+							l.Outcome("mixed")
+						case nd > 0:
+							l.Outcome("data-only")
+						case nb > 0:
+							l.Outcome("block-only")
+						default:
+							l.Outcome("empty")
+						}
 					}
 				}
 			}
 		}
 	})
-	r.Sample(c19case{"abab", "babab", 2, 1})
-	r.Sample(c19case{"aabba", "abbaab", 3, 2})
+	r.Sample(c19case{"abab", "babab", 2, 1, "bytes"})
+	r.Sample(c19case{"aabba", "abbaab", 3, 2, "plain"})
 }
 
 // ---- C20 ----
